@@ -470,14 +470,34 @@ def wiring_rule(ctx, rep, prop):
     rep.check(rule, "call-sites-examined", n > 0, where="", what=f"{n} call sites into the property's modules examined for crossed arguments", nontrivial=False)
 
 
+def range_bounds(r):
+    """(lo, hi, inclusive) of a range expression with constant bounds: a promoted / aggregate Range*, RangeInclusive::new(a, b)"""
+    def ints(xs):
+        return len(xs) == 2 and all(x[0] == "const" and isinstance(x[1], int) and not isinstance(x[1], bool) for x in xs)
+    if not isinstance(r, tuple) or not r:
+        return None
+    if r[0] == "promoted" and isinstance(r[2], tuple) and r[2][0] == "adt" and "Range" in r[2][1] and ints(r[2][3]):
+        return r[2][3][0][1], r[2][3][1][1], "Inclusive" in r[2][1]
+    if r[0] == "agg" and ints(r[2]) and "Range" in repr(r[1]):
+        return r[2][0][1], r[2][1][1], "Inclusive" in repr(r[1])
+    if r[0] == "call" and r[1].endswith("RangeInclusive::<Idx>::new") and ints(r[2]):
+        return r[2][0][1], r[2][1][1], True
+    return None
+
+
 def num_eval(assign):
     """evaluator for pathsens: comparisons between the integer variables named by `assign` ([(is_var(expr) -> bool, value)]),
-    integer constants, and `Range/RangeInclusive::contains(&var)` with constant bounds are computed; anything else is open"""
+    integer constants, `Range/RangeInclusive::contains(&var)` with constant bounds and the bounds (`start()`/`end()`) of such
+    ranges are computed; anything else is open"""
     def val_of(x):
         if x[0] == "const" and isinstance(x[1], int) and not isinstance(x[1], bool):
             return x[1]
         if x[0] == "cast" and len(x) > 2:
             return val_of(x[2]) if isinstance(x[2], tuple) else None
+        if x[0] == "call" and re.search(r"RangeInclusive::<Idx>::(start|end)$", x[1]) and x[2]:
+            rb = range_bounds(x[2][0])
+            if rb is not None:
+                return rb[0] if x[1].endswith("start") else rb[1]
         for is_var, v in assign:
             if is_var(x):
                 return v
@@ -488,22 +508,11 @@ def num_eval(assign):
             return None
         if e[0] == "call" and re.search(r"ops::Range(Inclusive)?::<Idx>::contains$|RangeInclusive<.*>::contains$|Range<.*>::contains$", e[1]) and len(e[2]) == 2:
             v = val_of(e[2][1])
-            if v is None:
+            rb = range_bounds(e[2][0])
+            if v is None or rb is None:
                 return None
-            r = e[2][0]
-            lo = hi = None
-            incl = "Inclusive" in e[1]
-            if r[0] == "promoted" and isinstance(r[2], tuple) and r[2][0] == "adt" and "Range" in r[2][1] and len(r[2][3]) == 2 \
-                    and all(x[0] == "const" and isinstance(x[1], int) for x in r[2][3]):
-                lo, hi = r[2][3][0][1], r[2][3][1][1]
-            elif r[0] == "agg" and len(r[2]) == 2 and all(x[0] == "const" and isinstance(x[1], int) for x in r[2]):
-                lo, hi = r[2][0][1], r[2][1][1]
-                incl = incl or "Inclusive" in repr(r[1])
-            elif r[0] == "call" and r[1].endswith("RangeInclusive::<Idx>::new") and all(x[0] == "const" and isinstance(x[1], int) for x in r[2]):
-                lo, hi = r[2][0][1], r[2][1][1]
-                incl = True
-            if lo is None:
-                return None
+            lo, hi, incl = rb
+            incl = incl or "Inclusive" in e[1]
             return (lo <= v <= hi) if incl else (lo <= v < hi)
         if e[0] == "bin" and e[1] in ("Gt", "Ge", "Lt", "Le", "Eq", "Ne"):
             a, c = val_of(e[2]), val_of(e[3])
